@@ -27,12 +27,6 @@ Definition kwtab : list (string * kwkind) :=
 Definition kwkeys : list string := map fst kwtab.
 Definition kind_of (k: string) : option kwkind := lookup k kwtab.
 
-Definition formats : list string :=
-  ["date-time"; "date"; "time"; "duration"; "email"; "idn-email"; "hostname"; "idn-hostname"; "ipv4"; "ipv6"; "uri";
-   "uri-reference"; "iri"; "iri-reference"; "uuid"; "uri-template"; "json-pointer"; "relative-json-pointer"; "regex";
-   "time-delta"; "time-zone"; "ipv4network"; "ipv6network"; "ipv4interface"; "ipv6interface"; "decimal"; "fraction";
-   "base64"; "path"].
-
 (* outcome of from_dict(d).to_dict(): a document, an exception of from_dict, or outside the model
    (values whose treatment by the unpackers is not modelled, e.g. a number where a string is declared) *)
 Inductive nres := NOk (d: js) | NErr | NOut.
@@ -213,11 +207,14 @@ Qed.
 
 (* ---- rendered schema objects ---- *)
 Definition render_kvs (r: sk) : list (string * js) :=
-  (optkv "$schema" JStr r.(k_schema) ++ optkv "type" JStr r.(k_type) ++ optkv "title" JStr r.(k_title)
+  (optkv "$schema" JStr r.(k_schema) ++ optkv "type" JStr r.(k_type) ++ optkv "enum" JArr r.(k_enum)
+   ++ optkv "const" (fun d => d) r.(k_const) ++ optkv "format" JStr r.(k_format)
+   ++ optkv "title" JStr r.(k_title) ++ optkv "description" JStr r.(k_description)
    ++ optkv "anyOf" JArr r.(k_anyOf) ++ optkv "$ref" JStr r.(k_ref) ++ optkv "$defs" JObj r.(k_defs)
    ++ optkv "default" (fun d => d) r.(k_default) ++ optkv "properties" JObj r.(k_props)
    ++ optkv "additionalProperties" (fun d => d) r.(k_addl) ++ optkv "propertyNames" (fun d => d) r.(k_pnames)
    ++ optkv "prefixItems" JArr r.(k_prefix) ++ optkv "items" (fun d => d) r.(k_items)
+   ++ optkv "pattern" JStr r.(k_pattern)
    ++ optkv "maxItems" JInt r.(k_maxItems) ++ optkv "minItems" JInt r.(k_minItems)
    ++ optkv "uniqueItems" JBool r.(k_unique)
    ++ optkv "required" (fun l => JArr (map JStr l)) r.(k_required) ++ [])%list.
@@ -259,6 +256,7 @@ Qed.
 (* sufficient conditions on a schema object for its rendering to be a fixed point *)
 Record sk_nf (s: sk) : Prop := {
   nf_type : forall t, k_type s = Some t -> is_type_name t = true;
+  nf_format : forall f, k_format s = Some f -> str_mem f formats = true;
   nf_anyOf : forall l, k_anyOf s = Some l -> Forall nf l;
   nf_defs : forall m, k_defs s = Some m -> forall k d, In (k, d) m -> nf d;
   nf_props : forall m, k_props s = Some m -> forall k d, In (k, d) m -> nf d;
@@ -275,10 +273,14 @@ Qed.
 
 Lemma norm_render s : sk_nf s -> nf (render s).
 Proof.
-  intros [Ht Ha Hd Hp Had Hpn Hpf Hi]. unfold nf. rewrite render_is. apply norm_fix; [|apply render_sub].
+  intros [Ht Hfm Ha Hd Hp Had Hpn Hpf Hi]. unfold nf. rewrite render_is. apply norm_fix; [|apply render_sub].
   unfold render_kvs. repeat (apply Forall_app; split); try apply Forall_nil; apply forall_optkv; intros a Ha'.
   - reflexivity.
   - unfold fixv, norm_val. simpl. rewrite (Ht a Ha'). reflexivity.
+  - reflexivity.
+  - unfold fixv, norm_val. simpl. destruct a; reflexivity.
+  - unfold fixv, norm_val. cbn [fst snd]. change (kind_of "format") with (Some KwFormat). cbn [scalar_val]. rewrite (Hfm a Ha'). reflexivity.
+  - reflexivity.
   - reflexivity.
   - unfold fixv, norm_val. simpl. rewrite (norm_list_fix a (Ha a Ha')). reflexivity.
   - reflexivity.
@@ -291,6 +293,7 @@ Proof.
   - apply fix_sch; [reflexivity|exact (Hpn a Ha')].
   - unfold fixv, norm_val. simpl. rewrite (norm_list_fix a (Hpf a Ha')). reflexivity.
   - apply fix_sch; [reflexivity|exact (Hi a Ha')].
+  - reflexivity.
   - reflexivity.
   - reflexivity.
   - reflexivity.
@@ -341,13 +344,20 @@ Proof.
   - destruct props; [discriminate|]. inversion H0; subst. eapply H; eauto.
   - inversion H0; subst. right. eauto.
 Qed.
+Lemma N_leaf ks tp fmt pat :
+  is_type_name tp = true -> match fmt with Some f => str_mem f formats | None => true end = true -> Sn ks (leaf_sk tp fmt pat).
+Proof. intros H1 H2. sknf; [inversion H; subst; exact H1|subst fmt; exact H2]. Qed.
+Lemma N_enum ks lit vals : Sn ks (enum_sk lit vals).
+Proof. destruct lit; [destruct vals as [|v [|w l]]|]; sknf. Qed.
+Lemma N_descr ks s d : Sn ks s -> Sn ks (set_description s d).
+Proof. intros [A A' B C D E F G H]. destruct d as [[|c d']|]; constructor; simpl; assumption. Qed.
 Lemma N_default ks s d : Sn ks s -> Sn ks (set_default s d).
-Proof. intros [A B C D E F G H]. destruct d; constructor; simpl; assumption. Qed.
+Proof. intros [A A' B C D E F G H]. destruct d; constructor; simpl; assumption. Qed.
 Lemma N_schema ks s u : Sn ks s -> Sn ks (set_schema s u).
-Proof. intros [A B C D E F G H]. constructor; simpl; assumption. Qed.
+Proof. intros [A A' B C D E F G H]. constructor; simpl; assumption. Qed.
 Lemma N_defs ks s st : Sn ks s -> (forall c d, In (c, d) st -> Gn ks d) -> Sn ks (set_defs s st).
 Proof.
-  intros [A B C D E F G H] Hst. constructor; simpl; try assumption.
+  intros [A A' B C D E F G H] Hst. constructor; simpl; try assumption.
   intros m Hm k d Hin. inversion Hm; subst. eapply Hst; eauto.
 Qed.
 
@@ -362,7 +372,7 @@ Theorem roundtrip_seq E cfg fuel ts st ds st' :
 Proof.
   intros Hn Hb Hc.
   destruct (build_seq_inv E cfg Gn (fun _ _ _ _ H => H) Sn (fun ks s H => norm_render s H) (fun _ _ _ _ H => H)
-                          N_ty N_any N_arr N_dict N_tuple N_union (fun ks c _ => N_ref ks _) N_obj N_ntobj
+                          N_ty N_any N_arr N_dict N_tuple N_union (fun ks c _ => N_ref ks _) N_obj N_leaf N_enum N_descr N_ntobj
                           N_default N_defs N_schema Hn fuel ts st ds st' Hb Hc) as (A & B & _).
   split; assumption.
 Qed.
@@ -374,7 +384,7 @@ Theorem roundtrip_build E cfg fuel wd uri t st d st' :
 Proof.
   intros Hn Hb Hc.
   destruct (build_inv E cfg Gn (fun _ _ _ _ H => H) Sn (fun ks s H => norm_render s H) (fun _ _ _ _ H => H)
-                      N_ty N_any N_arr N_dict N_tuple N_union (fun ks c _ => N_ref ks _) N_obj N_ntobj
+                      N_ty N_any N_arr N_dict N_tuple N_union (fun ks c _ => N_ref ks _) N_obj N_leaf N_enum N_descr N_ntobj
                       N_default N_defs N_schema Hn fuel wd uri t st d st' Hb Hc) as (A & B & _).
   split; assumption.
 Qed.
